@@ -133,7 +133,9 @@ class _ExpressionConverter:
         key = (variable.name, assert_not_none_type(self._types[tt]))
         if key not in self._variables:
             self._variables[key] = UPVariable(
-                variable.name, assert_not_none_type(self._types[tt])
+                variable.name,
+                assert_not_none_type(self._types[tt]),
+                self._em.environment,
             )
         return self._variables[key]
 
@@ -425,12 +427,16 @@ class AIPDDLConverter:
         return assert_not_none_type(self._up_type(tt))
 
     def _variable_to_param(self, variable: Variable) -> Parameter:
-        return Parameter(variable.name, self._variable_type(variable))
+        return Parameter(
+            variable.name, self._variable_type(variable), self._environment
+        )
 
     def _convert_predicate_to_fluent(self, predicate: Predicate):
         assert self._up_problem is not None
         params = OrderedDict((v.name, self._variable_type(v)) for v in predicate.terms)
-        fluent = Fluent(predicate.name, self._tm.BoolType(), **params)
+        fluent = Fluent(
+            predicate.name, self._tm.BoolType(), params, self._environment
+        )
         self._fluents[predicate.name] = fluent
         self._up_problem.add_fluent(fluent, default_initial_value=self._em.FALSE())
 
@@ -460,7 +466,7 @@ class AIPDDLConverter:
             self._action_costs = {}
             return
         params = OrderedDict((v.name, self._variable_type(v)) for v in function.terms)
-        f = Fluent(function.name, self._tm.RealType(), **params)
+        f = Fluent(function.name, self._tm.RealType(), params, self._environment)
         self._fluents[function.name] = f
         self._up_problem.add_fluent(f, default_initial_value=self._em.Int(0))
 
@@ -474,7 +480,11 @@ class AIPDDLConverter:
         assert self._up_problem is not None
         if obj.type_tags is None:
             raise UPUnsupportedProblemTypeError(f"Object {obj.name} has no type tag")
-        obj = Object(obj.name, assert_not_none_type(self._up_type(obj.type_tag)))
+        obj = Object(
+            obj.name,
+            assert_not_none_type(self._up_type(obj.type_tag)),
+            self._environment,
+        )
         self._objects[obj.name] = obj
         self._up_problem.add_object(obj)
 
@@ -641,7 +651,7 @@ class AIPDDLConverter:
                 new_quantifier_variables = current_quantifier_variables.copy()
                 for v in current_effect.variables:
                     new_quantifier_variables[v.name] = UPVariable(
-                        v.name, self._variable_type(v)
+                        v.name, self._variable_type(v), self._environment
                     )
                 stack.append(
                     (current_effect.effect, new_quantifier_variables, current_condition)
@@ -663,11 +673,13 @@ class AIPDDLConverter:
             (v.name, self._variable_type(v)) for v in action.parameters
         )
         action_parameters_expression = {
-            p_name: Parameter(p_name, p_type)
+            p_name: Parameter(p_name, p_type, self._environment)
             for p_name, p_type in action_parameters.items()
         }
 
-        up_action = InstantaneousAction(action.name, **action_parameters)
+        up_action = InstantaneousAction(
+            action.name, action_parameters, self._environment
+        )
 
         up_action.add_precondition(
             self._expression_converter.convert_expression(
